@@ -38,11 +38,15 @@ LEVEL_NOTE = ("T2 ('the copy is equal and independent') is proved in two halves,
               "sub-word member structs of 1/2/4-byte lists). Outside these four the equality of the trees is checked per "
               "program by the runs. INDEPENDENCE HALF (Properties_C16_indep.v, any arena): C16_copy_independent is a byte-level "
               "frame property of the table invariant for any split of the object table into older and newer entries (a write "
-              "inside an entry of one part changes no byte of the other); it does not mention write_ptr. C05_copy_all supplies "
-              "such a split for every forced copy but states only 'exists eo' (eo may be empty): that a forced "
-              "copy INSIDE ONE MESSAGE allocates new objects for the whole reachable tree and that the slot designates the new "
-              "one (deep, not shallow) is NOT a theorem - the runs check it (trees of both sides after mutating either), "
-              "C16_forced_copy_is_deep_example shows it on one program; for copies from another message deepness follows from "
+              "inside an entry of one part changes no byte of the other); it does not mention write_ptr. The split and the "
+              "non-shallowness come from C16_forced_copy_fresh: whenever writePtr copies inside one message (forceCopy - set by "
+              "copyStruct for every pointer it copies - or a list-member source; non-empty struct or list), the object table grows "
+              "by an entry h that starts at the old end of its segment, is disjoint from every older object incl. the source, "
+              "and the slot written resolves to exactly h. This is a theorem about ONE writePtr call, applicable at every depth "
+              "because copyStruct writes every pointer through writePtr with forceCopy; the closure 'every slot reachable from "
+              "the copy designates a new entry' is NOT stated as one theorem (C05_copy_all would have to be re-proved with that "
+              "conclusion) - the runs check whole trees of both sides after mutating either, C16_forced_copy_is_deep_example "
+              "shows a two-level case; for copies from another message deepness follows from "
               "the value half within its four restrictions. Proved without restriction: the byte-level frame (C16_copy_fresh: "
               "no older byte but the pointer word changes), no builder op writes the source message (C16_copy_keeps_source, "
               "C16_source_unchanged), source-side setters do not write the destination. The +1 reference of a re-homed "
